@@ -2203,10 +2203,11 @@ class CreateIndexBuilder:
         columns_str = ", ".join([c.name for c in self._columns])
         unique_str = "UNIQUE" if self._is_unique else ""
         if_not_exists_str = "IF NOT EXISTS" if self._if_not_exists else ""
-        base_sql = f"CREATE {unique_str} INDEX {if_not_exists_str} {self._index} ON {self._table}({columns_str})"
+        head = " ".join(part for part in ("CREATE", unique_str, "INDEX", if_not_exists_str) if part)
+        base_sql = f"{head} {self._index} ON {self._table}({columns_str})"
         if self._wheres:
             base_sql += f" WHERE {self._wheres}"
-        return base_sql.replace("  ", " ")
+        return base_sql
 
     def __str__(self) -> str:
         return self.get_sql()
